@@ -14,8 +14,8 @@ ID = "C18"
 ASSUMPTIONS = [
     "durations are arbitrary integers >= 1 (as the default dominated-operations filter of the environments assumes); gymnasium, networkx and "
     "numpy run unmodified; observation_space.contains() is the real gymnasium check whenever the feature arrays are concrete on a path "
-    "(all observers except Duration and EarliestStartTime); for those two the arrays hold symbolic values behind the numpy facade and only "
-    "shapes and padding are compared with the declared space",
+    "(all observers except Duration and EarliestStartTime); for those two the arrays hold symbolic values behind the numpy facade: shapes and padding "
+    "are compared with the declared space and membership in the Box bounds is a solver obligation per cell",
     "multi-instance environment: the generator runs against the symbolic RNG model of C19 (every randint an arbitrary in-range integer, every "
     "choice exhaustive); 2 episodes (thorough 3) after construction",
     "membership in the declared observation space is demanded when use_padding is on (its documented purpose is to maintain the shapes); "
@@ -168,9 +168,28 @@ def check_observation(eng, sp, env, inner, obs, key, padded_to=None):
             eng.fail(key + "/observation-not-in-observation-space", f"keys {bad}: " +
                      "; ".join(f"{k}: shape {getattr(obs[k], 'shape', None)} dtype {getattr(obs[k], 'dtype', None)} space {space.spaces[k]}" for k in bad)[:300])
     else:
+        import gymnasium as gym
+
+        conds = []
         for k, s in space.spaces.items():
             if tuple(getattr(obs[k], "shape", ())) != tuple(s.shape):
                 eng.fail(key + "/observation-shape-differs-from-space", f"{k}: {obs[k].shape} vs {s.shape}")
+                continue
+            if isinstance(s, gym.spaces.Box) and getattr(obs[k], "dtype", None) == object:
+                # symbolic feature values: membership in the Box bounds is a solver obligation per cell
+                lo, hi = s.low.ravel().tolist(), s.high.ravel().tolist()
+                for x, l, h in zip(obs[k].ravel().tolist(), lo, hi):
+                    if isinstance(x, float) and x != x:
+                        eng.fail(key + "/observation-not-in-observation-space", f"{k}: NaN")
+                        continue
+                    if l != float("-inf"):
+                        conds.append(x >= l)
+                    if h != float("inf"):
+                        conds.append(x <= h)
+            elif not s.contains(obs[k]):
+                eng.fail(key + "/observation-not-in-observation-space", f"key {k}: shape {obs[k].shape} dtype {obs[k].dtype} space {s}"[:300])
+        if conds:
+            eng.prove(E.vand(conds), key + "/observation-not-in-observation-space", "a feature value lies outside the declared Box bounds")
     g = inner.job_shop_graph
     rn = list(np.asarray(obs["removed_nodes"]).tolist())
     n = len(g.removed_nodes)
